@@ -70,12 +70,34 @@ func smallPDFSpec(r *sim.Rand) pdfw.DocSpec {
 	return sp
 }
 
+// curated maps the document seeds of the first two enumerated PDF documents of a
+// batch to hand-picked layouts, so that even the quick tier covers the features
+// whose fields matter most (set by Generate).
+var curated = map[uint64]int{}
+
+func curatedPDFSpec(k int, seed uint64) pdfw.DocSpec {
+	if k == 0 {
+		// cross-reference stream, object streams (incl. the length object), PNG predictor,
+		// indirect /Length, Type0 font with ToUnicode, form XObject, one incremental update
+		return pdfw.DocSpec{Seed: seed, Pages: 2, Lines: 2, FontKinds: []int{pdfw.FontType0Identity, pdfw.FontStdWinAnsi}, XRef: []int{1, 1},
+			ObjStm: 2, ObjStmN: 1, ObjStmZ: true, XRefZ: 2, LenMode: 1, LenInStm: true, Filter: 1, Predictor: 12, TreeDepth: 2, InheritAt: 1,
+			ResIndirect: true, FontPartsIndirect: true, FormXObj: true, TextOps: 2, Revisions: 1, RevOps: []int{0}}
+	}
+	// classic table, TIFF predictor, filter chain on other streams via split content, deep tree, kids by reference
+	return pdfw.DocSpec{Seed: seed, Pages: 3, Lines: 2, FontKinds: []int{pdfw.FontSimpleToUni, pdfw.FontTrueTypeWin}, XRef: []int{0, 0},
+		Filter: 1, Predictor: 2, Split: 2, ContentsArr: true, ContentsRef: true, TreeDepth: 3, InheritAt: 2, KidsRef: true, Rotate: 90,
+		LenMode: 2, TextOps: 1, Revisions: 1, RevOps: []int{2}, DictBreak: true}
+}
+
 func makeDoc(format string, seed uint64) *document {
 	r := sim.NewRand(sim.Mix(seed ^ sim.HashString(format)))
 	d := &document{format: format, ext: "." + format}
 	switch format {
 	case "pdf":
 		sp := smallPDFSpec(r)
+		if k, ok := curated[seed]; ok {
+			sp = curatedPDFSpec(k, sp.Seed)
+		}
 		d.pdf = &sp
 		d.data = pdfw.Generate(sp).Built.Bytes
 	case "docx":
@@ -189,6 +211,9 @@ func (p *Prop) Generate(base uint64, index int, env *sim.Env) *sim.Case {
 	docIdx := j % D
 	block := j / D
 	docSeed := sim.RunSeed(base, "C02-doc-"+format, docIdx)
+	if format == "pdf" && docIdx < 2 {
+		curated[docSeed] = docIdx
+	}
 	c := &sim.Case{Prop: "C02", Seed: seed, Index: index}
 	sp := Spec{Format: format, DocSeed: docSeed, Block: block}
 	d := makeDoc(format, docSeed)
